@@ -20,7 +20,8 @@ from typing import Dict, List, Optional, Set, Tuple
 
 from rules._siblings import priority_signature
 from sa.cfg import CFG, guards
-from sa.model import AnalysisError, Function, Repo, calls_in, const_str, dotted, norm, own_nodes, parent
+from sa.model import AnalysisError, Function, Repo, calls_in, const_str, dotted, full, norm, own_nodes, parent
+from sa.match import Locals, conjuncts, match, names_in
 from sa.report import Report
 from sa.templates import HOLE, template_of
 
@@ -74,16 +75,29 @@ def run(repo: Repo, rep: Report, tier: str) -> None:
     rep.require(len(resolves) == 1, f"R5.2: expected exactly one strategy resolution in generate(), found {len(resolves)}")
     if resolves:
         var = norm(resolves[0].targets[0])
+        strategy_params: Dict[str, Set[str]] = {}
         for mname in ("_generate_standard_method", "_generate_overloaded_method", "_generate_implementation_method"):
             m = gen.cls.methods.get(mname) if gen.cls else None
             if m is None:
                 raise AnalysisError(f"anchor vanished: EndpointMethodGenerator.{mname}")
-            pnames = [p for p in m.params if "strategy" in p]
+            # the parameter that receives the resolved strategy: by the position / keyword at which generate() (or a sibling) passes it
+            sp = None
+            for caller in [gen] + [x for x in (gen.cls.methods.values() if gen.cls else [])]:
+                cvar = var if caller is gen else None
+                for c in calls_in(caller.node):
+                    if isinstance(c.func, ast.Attribute) and c.func.attr == mname:
+                        mparams = [p for p in m.params if p != "self"]
+                        for i, a in enumerate(c.args):
+                            if isinstance(a, ast.Name) and (a.id == cvar or (cvar is None and a.id in strategy_params.get(caller.name, ()))) and i < len(mparams):
+                                sp = mparams[i]
+                        for k in c.keywords:
+                            if isinstance(k.value, ast.Name) and (k.value.id == cvar or (cvar is None and k.value.id in strategy_params.get(caller.name, ()))) and k.arg in mparams:
+                                sp = k.arg
             sub = f"{m.module.relpath}:{m.qualname} strategy threading"
-            if not pnames:
+            if sp is None:
                 rep.violation("R5.2", sub, f"{m.fq}|no-strategy-param", "the method no longer receives the resolved strategy", m.loc())
                 continue
-            sp = pnames[0]
+            strategy_params.setdefault(m.name, set()).add(sp)
             consumers = [c for c in calls_in(m.node) if isinstance(c.func, ast.Attribute) and c.func.attr in (
                 "generate_signature", "generate_docstring", "generate_response_handling", "generate_overload_signatures",
                 "generate_implementation_signature", "_generate_implementation_method")]
@@ -125,15 +139,23 @@ def run(repo: Repo, rep: Report, tier: str) -> None:
         raise AnalysisError("anchor vanished: generate_response_handling")
     cfg = CFG(grh.node)
     dom = cfg.dominators()
+    GL = Locals(grh.node)
     none_writes = [n for n in cfg.nodes if n.kind == "stmt" and n.ast is not None and any(
         isinstance(c.func, ast.Attribute) and c.func.attr == "write_line" and c.args and const_str(c.args[0]) == "return None" for c in calls_in(n.ast))]
     prim = sec = False
     for n in none_writes:
-        gs = guards(cfg, n.id, dom)
-        if any(pol is True and "return_type == 'None'" in norm(g.ast) for g, pol in gs):
-            prim = True
-        if any(pol is True and isinstance(g.ast, ast.UnaryOp) and "content" in norm(g.ast) for g, pol in gs):
-            sec = True
+        gs = [(g, pol) for g, pol in guards(cfg, n.id, dom) if g.kind == "test" and pol is not None]
+        for g, pol in gs:
+            for cj in (conjuncts(g.ast, GL, stop=tuple(GL.params)) if pol else [GL.inline(g.ast, stop=tuple(GL.params))]):
+                eff = pol
+                while isinstance(cj, ast.UnaryOp) and isinstance(cj.op, ast.Not):
+                    cj, eff = cj.operand, not eff
+                m_eq = match("ANY_s.return_type == 'None'", cj)
+                m_ne = match("ANY_s.return_type != 'None'", cj)
+                if (m_eq is not None and eff) or (m_ne is not None and not eff):
+                    prim = True
+                if isinstance(cj, ast.Attribute) and cj.attr == "content" and not eff:
+                    sec = True
     for label, okv in (("primary response without content", prim), ("secondary 2xx response without content", sec)):
         sub = f"{grh.module.relpath}:generate_response_handling {label}"
         if okv:
@@ -246,6 +268,18 @@ def _json_guard(fn: Function, rep: Report) -> None:
     """Every emit of `response.json()` with the strategy's/mapping's type must be unreachable for str/bytes."""
     cfg = CFG(fn.node)
     dom = cfg.dominators()
+    FL = Locals(fn.node)
+    mconsts = {t.id: st.value for st in fn.module.tree.body if isinstance(st, ast.Assign) and isinstance(st.value, (ast.Tuple, ast.List, ast.Set, ast.Constant))
+               for t in st.targets if isinstance(t, ast.Name)}
+
+    def test_text(t: ast.AST) -> str:
+        ti = FL.inline(t, stop=tuple(FL.params))
+        txt = norm(ti)
+        for nm in names_in(ti):
+            if nm in mconsts:
+                txt += " " + norm(mconsts[nm])
+        return txt
+
     emits = []
     for nd in cfg.nodes:
         if nd.kind != "stmt" or nd.ast is None or nd.copy:
@@ -253,7 +287,7 @@ def _json_guard(fn: Function, rep: Report) -> None:
         for c in calls_in(nd.ast):
             if isinstance(c.func, ast.Attribute) and c.func.attr == "write_line" and c.args:
                 t = template_of(c.args[0], fn.node)
-                if t is not None and "cast(" in t.text and ("response.json()" in t.text or any("data_expr" in norm(h) for h in t.holes)):
+                if t is not None and "cast(" in t.text and ("response.json()" in t.text or any("response.json()" in full(FL.inline(h)) for h in t.holes)):
                     emits.append((nd, c))
     if not emits:
         rep.error(f"R5.4: no `cast(<type>, response.json())` emit found in {fn.qualname} (anchor)")
@@ -268,14 +302,14 @@ def _json_guard(fn: Function, rep: Report) -> None:
                         out.append(n)
         return out
 
-    tests = [n for n in cfg.nodes if n.kind == "test" and ("'str'" in norm(n.ast) or "'bytes'" in norm(n.ast))]
+    tests = [n for n in cfg.nodes if n.kind == "test" and ("'str'" in test_text(n.ast) or "'bytes'" in test_text(n.ast))]
     for nd, c in emits:
         sub = f"{fn.module.relpath}:{fn.qualname} `{norm(c.args[0])[:50]}`"
         seen_kinds: Set[str] = set()
         kinds_dom: Set[str] = set()
         for kind, snippet in (("str", "response.text"), ("bytes", "response.content")):
             for en in emit_nodes(snippet):
-                gts = [t for t in tests if t.id in dom[en.id] and f"'{kind}'" in norm(t.ast)]
+                gts = [t for t in tests if t.id in dom[en.id] and f"'{kind}'" in test_text(t.ast)]
                 if gts:
                     seen_kinds.add(kind)
                     # the same test is evaluated on every path to the JSON emit
